@@ -48,7 +48,45 @@ def block_kv(level, vals):
     return "%d:%d:%s" % (level, {6: 8, 11: 4, 255: 6}[level], ",".join("%s=%d" % kv for kv in vals))
 
 
+def focused_config(r, n):
+    """valid configs that combine sections whose interplay is index arithmetic: frames removed in front of / inside
+    ranged scene cuts and active-area edits (ranges are positions in the ORIGINAL list), presets whose ids are not
+    their positions, duplicates whose source lies behind their offset with length >= 2"""
+    cfg, mp = {}, []
+    a = r.randrange(0, max(1, n - 2))
+    if r.random() < 0.8:
+        rm = [str(a)] if r.random() < 0.5 else ["%d-%d" % (a, min(n - 1, a + r.choice([0, 1, 2])))]
+        if r.random() < 0.3:
+            rm.append(str(r.randrange(n)))
+        cfg["remove"] = rm
+        mp.append("remove@" + ",".join(hx(x) for x in rm))
+    if r.random() < 0.7:
+        ids = r.sample(range(0, 6), r.choice([2, 3]))
+        ps = [{"id": i, "left": r.choice([0, 10, 20]), "right": r.choice([0, 10]), "top": r.choice([0, 138, 276]) + k, "bottom": r.choice([0, 138, 276])} for k, i in enumerate(ids)]
+        ed = {}
+        for _ in range(r.choice([1, 2, 3])):
+            s0 = r.randrange(n)
+            ed["%d-%d" % (s0, r.randrange(s0, n))] = r.choice(ids)
+        cfg["active_area"] = {"presets": ps, "edits": ed}
+        mp += ["aa", "presets@" + ",".join("%d:%d:%d:%d:%d" % (p["id"], p["left"], p["right"], p["top"], p["bottom"]) for p in ps), "edits@" + ",".join("%s:%d" % (hx(k), ed[k]) for k in ed)]
+    if r.random() < 0.8:
+        sc = {}
+        for _ in range(r.choice([1, 2, 3])):
+            s0 = r.randrange(n)
+            sc["%d-%d" % (s0, r.randrange(s0, n))] = r.random() < 0.6
+        cfg["scene_cuts"] = sc
+        mp.append("cuts@" + ",".join("%s:%d" % (hx(k), 1 if sc[k] else 0) for k in sc))
+    if r.random() < 0.5 and n >= 3:
+        off = r.randrange(0, n - 1)
+        ds = [{"source": r.randrange(off + 1, n), "offset": off, "length": r.choice([2, 3])}]
+        cfg["duplicate"] = ds
+        mp.append("dups@" + ",".join("%d:%d:%d" % (d["source"], d["offset"], d["length"]) for d in ds))
+    return cfg, "/".join(mp) or "-", "-", False
+
+
 def gen_config(r, n, pool, w, clean=False):
+    if n >= 3 and r.random() < 0.25:
+        return focused_config(r, n)
     cfg, mp = {}, []
     src = "-"
     heavy = r.random() < 0.55          # per-frame operations present
@@ -254,7 +292,7 @@ def run(res):
     res.coverage.update({
         "evaluations": nrun * 2,
         "distinct_nontrivial": ncase,
-        "rule": "RPU lists of 1..15 frames drawn from generated valid RPUs (mixed profiles, with/without CM v4.0, with/without L5, MMR/polynomial/NLQ) and the repository's sample RPUs x editor configs generated field by field: mode 0..6/255, remove_cmv4, remove_mapping, min/max PQ, active_area {crop, drop_l5, presets with duplicate / unknown ids, edits with `all` and range keys}, remove (ranges, indices, junk), duplicate (source/offset at and past the bounds, several entries incl. entries sharing one offset with different sources, length 0..3), scene_cuts (all / ranges, overlapping), level6/9/11/255, source_rpu of equal / different length / missing file with and without rpu_levels; range keys at every shape: start=end, end=N-1, end=N, start>end, far past the end, half-empty, non-numeric, `+`-prefixed, three-part; exit status and output bytes compared with the Coq editor model; length accounting and byte-identity of frames outside every range checked directly",
+        "rule": "RPU lists of 1..15 frames drawn from generated valid RPUs (mixed profiles, with/without CM v4.0, with/without L5, MMR/polynomial/NLQ) and the repository's sample RPUs x editor configs generated field by field: mode 0..6/255, remove_cmv4, remove_mapping, min/max PQ, active_area {crop, drop_l5, presets with duplicate / unknown ids, edits with `all` and range keys}, remove (ranges, indices, junk), duplicate (source/offset at and past the bounds, several entries incl. entries sharing one offset with different sources, length 0..3), scene_cuts (all / ranges, overlapping), level6/9/11/255, source_rpu of equal / different length / missing file with and without rpu_levels; a quarter of the configs focused on index arithmetic (frames removed in front of / inside ranged scene cuts and edits, preset ids different from their positions, duplicates with the source behind the offset and length >= 2); range keys at every shape: start=end, end=N-1, end=N, start>end, far past the end, half-empty, non-numeric, `+`-prefixed, three-part; exit status and output bytes compared with the Coq editor model; length accounting and byte-identity of frames outside every range checked directly",
         "cli_runs": nrun, "outcomes": stats,
     })
     res.assumptions += ["JSON deserialisation of the config (serde) is not modelled: the model receives the typed configuration the generator built",
